@@ -148,7 +148,18 @@ fn main() {
         if conf.M.iter().any(|m| m.to_machine().is_err()) {
             continue;
         }
-        let hist = gen_history(&mut g, conf.M.len(), if conf.M.len() > 8 { calls / 3 + 1 } else { calls }, false);
+        let mut hist = gen_history(&mut g, conf.M.len(), if conf.M.len() > 8 { calls / 3 + 1 } else { calls }, false);
+        // clock values beyond 2^32 us as well (jumps of 2^32 .. 2^58 us, total below 2^61)
+        if sc % 2 == 0 {
+            let mut off = 0i64;
+            for c in hist.iter_mut() {
+                if g.gen_range(0..6) == 0 {
+                    off += *[1i64 << 32, (1i64 << 32) + 1, 1i64 << 40, 1i64 << 53, 1i64 << 58].get(g.gen_range(0..5)).unwrap();
+                    off = off.min(1i64 << 61);
+                }
+                c.t += off;
+            }
+        }
         let mut machines: Vec<maybenot::Machine> = conf.M.iter().map(|m| m.to_machine_unchecked()).collect();
         let constant = |g: &mut GRng| {
             let v = B[g.gen_range(0..B.len())];
